@@ -23,6 +23,7 @@ CONSTANTS Schema,     \* sequence of [n, k, m]: the data columns
           AllowDelete,
           AllowInsert,
           LateInitSel,\* BOOLEAN: the selection may be taken at any point of the body (else right after Begin)
+          Keyed,      \* BOOLEAN: rows are created through InsertKey / UpsertKey (the schema has a key column)
           Rep,        \* the actor replaying on R
           ReplayAtEnd \* BOOLEAN: replay only once every writer is done (replays commute with the primary's steps)
 
@@ -81,18 +82,38 @@ Applying(t) == txn[t].pc = "commit"
 \* rows a transaction addresses: its selection if taken, else the rows live right now, plus its own inserts
 Addressable(t) == (IF txn[t].setup THEN txn[t].sel ELSE Coll(t).live) \cup txn[t].reserved
 
+\* key calls, step by step (the lookup, then the insert, then the buffered key write, then the return)
+KeyVals == {"k1", "k2"}
+KC == CHOOSE n \in ColNames : DescOf(n).k = "key"
+KeyWritten(t) == LET b == txn[t].bufs IN KC \in DOMAIN b /\ b[KC] # <<>> /\ LastOp(b, KC).k = "put" /\ LastOp(b, KC).v = txn[t].kop.k
+                                         /\ LastOp(b, KC).o \in txn[t].reserved
+KeyStep(t) ==
+  LET q == txn[t].kop IN
+  \/ /\ Body(t) /\ q.fn = "none"
+     /\ \E fn \in {"ins", "ups", "del"}, k \in KeyVals, found \in BOOLEAN :
+          \E o \in (IF found /\ \E p \in Coll(t).seek : p[1] = k THEN {p[2] : p \in {p \in Coll(t).seek : p[1] = k}} ELSE {0}) :
+             KeyCheck(t, fn, k, found, o)
+  \/ /\ txn[t].pc = "body" /\ q.fn \in {"ins", "ups"} /\ ~q.found /\ q.n = 0 /\ \E o \in Offsets : Reserve(t, o)
+  \/ /\ txn[t].pc = "body" /\ q.fn \in {"ins", "ups"} /\ ~q.found /\ q.n = 1 /\ ~KeyWritten(t)
+     /\ \E o \in txn[t].reserved : Write(t, KC, "put", o, q.k)
+  \/ /\ txn[t].pc = "body" /\ q.fn = "del" /\ q.found
+     /\ ~("row" \in DOMAIN txn[t].bufs /\ LastOp(txn[t].bufs, "row").k = "del" /\ LastOp(txn[t].bufs, "row").o = q.o)
+     /\ Delete(t, q.o)
+  \/ /\ txn[t].pc = "body" /\ q.fn # "none" /\ \E err \in BOOLEAN : KeyEnd(t, err)
+
 WriterStep(t) ==
   \/ txn[t].pc = "idle" /\ Begin(t, "P")
+  \/ Keyed /\ KeyStep(t)
   \/ /\ txn[t].pc = "body" /\ ~txn[t].setup /\ (LateInitSel \/ NOps(t) = 0)
      /\ \E sel \in {Coll(t).live \cup txn[t].reserved, Coll(t).fill} : InitSel(t, sel)
-  \/ AllowInsert /\ Body(t) /\ \E o \in Offsets : Reserve(t, o)
+  \/ AllowInsert /\ ~Keyed /\ Body(t) /\ \E o \in Offsets : Reserve(t, o)
   \/ AllowFail /\ txn[t].pc = "body" /\ \E o \in txn[t].reserved : InsFail(t, o)
-  \/ Body(t) /\ \E n \in ColNames : \E o \in Addressable(t) :
+  \/ Body(t) /\ txn[t].kop.fn = "none" /\ \E n \in {n \in ColNames : DescOf(n).k # "key"} : \E o \in Addressable(t) :
         \/ \E v \in PutVals(DescOf(n)) : Write(t, n, "put", o, v)
         \/ \E v \in MrgVals(DescOf(n)) : Write(t, n, "mrg", o, v)
-  \/ AllowDelete /\ Body(t) /\ txn[t].setup /\ \E o \in txn[t].sel : Delete(t, o)
-  \/ AllowRollback /\ Rollback(t)
-  \/ CommitStart(t)
+  \/ AllowDelete /\ Body(t) /\ txn[t].kop.fn = "none" /\ txn[t].setup /\ \E o \in txn[t].sel : Delete(t, o)
+  \/ AllowRollback /\ txn[t].pc = "body" /\ txn[t].kop.fn = "none" /\ Rollback(t)
+  \/ txn[t].pc = "body" /\ txn[t].kop.fn = "none" /\ CommitStart(t)
 
 CommitStep(t) ==
   \/ Applying(t) /\ \E mode \in {"strict", "asbuilt"} : Apply(t, MinOf(txn[t].dirty), NextId, mode)
